@@ -443,3 +443,12 @@ def i_sign_abs(a):
 
 def i_mean_dot(a, b):
     return a.mean() + np.dot(a, b) + np.mean(b)
+
+
+def i_while_newton(x):
+    r = 1.0
+    err = 1.0
+    while abs(err) > 1e-9:
+        err = r * r - x * x - 2.0
+        r = r - err / (2 * r)
+    return r
